@@ -71,14 +71,14 @@ def bytesLe : List Nat → List Nat → Bool
 
 /-! ## the table of map-`range` sites (regenerated into `Gen/C27Sites.lean`) -/
 
-inductive SiteClass | sortedAfter | orderInsensitive | unreachable | other
+inductive SiteClass | sortedAfter | sortedByKey | orderInsensitive | unreachable | other
   deriving Repr, DecidableEq
 
 /-- verdict of the committed audit for a site of class `other` (`unaudited` = not in the expectation
 file, or its class / range expression changed since the audit) -/
 inductive Audit
   | byShape | commutative | perElement | sortedLater | uniqueSearch | totalOrder
-  | debugOnly | errorPathOnly | notOnBuildPath | unaudited
+  | debugOnly | errorPathOnly | notOnBuildPath | injectiveKey | unaudited
   deriving Repr, DecidableEq
 
 structure Site where
@@ -91,6 +91,8 @@ def Site.accounted (s : Site) : Bool :=
   match s.cls, s.audit with
   | .other, .unaudited => false
   | .other, .byShape => false
+  | .sortedByKey, .unaudited => false   -- sorted by a derived key: canonical only if the key is injective (`nodup_keys_needed`)
+  | .sortedByKey, .byShape => false
   | _, _ => true
 
 def allAccounted (l : List Site) : Bool := l.all Site.accounted
